@@ -2,6 +2,9 @@
 import store_hist as H
 
 ID = "C03"
+# the model numbers fiber identities and rank lists in construction (DFS) order: no post-construction
+# re-assignment of sub-trees in the shared builder (the histories themselves contain such assignments)
+REASSIGN_MODE = False
 THEOREMS = ["C03_getPayload", "C03_getPayload_prefix", "C03_getPayloadRef", "C03_reads_pure",
             "C03_start_pos", "C03_position", "C03_model_meets_spec", "C03_step_refines", "C03_content_is_map"]
 COQ_IMPORTS = "From FT Require Import Model.Base Model.Obs Model.Store Model.StoreCheck."
